@@ -408,6 +408,57 @@ func rulesC04(c *Ctx) {
 		c.Pin("fail sites behind a response read error", n, 2)
 	})
 
+	c.Rule("R-C04-9", "one call's fate does not leak into another's: no HTTP round trip is made while a transport mutex is held (a POST the peer does not answer would otherwise block every other Write, Read and Close of that client), and the long-lived subscriptions/listen requests opened by Subscribe and by Connect live on a context of their own, not on the context of the call that opened them", func() {
+		do := c.Std("net/http", "Client", "Do")
+		n := 0
+		for _, f := range c.funcsWithLits(pM) {
+			for _, call := range f.CallsIn(f.Body, do, false) {
+				n++
+				held := map[string]bool{}
+				for k := range f.heldLocal(call) {
+					held[k] = true
+				}
+				for k := range c.lockEnv().heldAt(f, call) {
+					held[k] = true
+				}
+				c.Check(len(held) == 0, "http-roundtrip-unlocked:"+f.Name()+"#"+itoa(n), f, call, "(*http.Client).Do is called with no mutex held (held: %s)", setString(held))
+			}
+		}
+		c.Pin("http.Client.Do call sites in the transports", n, 4)
+		// listen lifetimes
+		sl := c.FnObj(pM, "ClientSession", "subscriptionsListen")
+		m := 0
+		for _, f := range c.funcsWithLits(pM) {
+			for _, call := range f.CallsIn(f.Body, sl, false) {
+				m++
+				root, chain := ctxRoot(f, call.Args[0], 6)
+				if root != "context.Background" {
+					// a variable declared first and assigned in a branch: every value it is ever given must be detached
+					if o := f.ObjOf(call.Args[0]); o != nil {
+						all, any := true, false
+						for _, w := range Writes(f.Root().Body, true) {
+							as, isAs := w.Stmt.(*ast.AssignStmt)
+							if f.ObjOf(w.LHS) != o || !isAs || len(as.Rhs) != 1 {
+								continue
+							}
+							any = true
+							r2, ch2 := ctxRoot(f, as.Rhs[0], 6)
+							chain += " ← " + ch2
+							if r2 != "context.Background" {
+								all = false
+							}
+						}
+						if all && any {
+							root = "context.Background"
+						}
+					}
+				}
+				c.Check(root == "context.Background", "listen-context-detached:"+f.Name(), f, call, "the listen request's context is derived from context.Background() (chain: %s): cancelling the context that was passed to Subscribe/Connect after they returned must not cancel the listen, which is a different in-flight request", chain)
+			}
+		}
+		c.Pin("subscriptions/listen openers", m, 2)
+	})
+
 	c.Import("R-C04-7", "cancelling one call disturbs no other: the cancellation notice is a valid message of the protocol version in use, so the peer does not answer it with an error that the transport treats as the end of the session", "C12", "R-C12-7", nil)
 
 	c.Rule("R-C04-6", "an undeliverable notice does not break the session: a failed write marks the writer broken only when the write's own context has not ended and the error is not a per-message rejection", func() { ruleWriteErrGuard(c) })
